@@ -356,6 +356,8 @@ pub fn run(cx: &mut Cx) {
         cx.ev.require(k);
     }
     cx.ev.require("boundary-shift/pairs");
+    cx.ev.require("lists/revision-cluster");
+    cx.ev.require("lists/neighbours");
     let n = cx.per_shard(30, 2_500, 96_000, 600_000);
     let mut r = cx.stream("lists");
     for _ in 0..n {
@@ -363,10 +365,33 @@ pub fn run(cx: &mut Cx) {
         let len = r.range(2, cx.pick_tier(3, 4, 5, 5));
         let mut names: Vec<String> = vec![];
         // shared version pool so that ties across bases happen
-        let pool: Vec<String> = (0..3).map(|_| version(&mut r)).collect();
+        // ... or a family of related versions: near neighbours of one version
+        // (one edit apart, so that a shortcut taken for "almost equal"
+        // candidates is reached), or one stem with different tails behind "nb"
+        let mode = r.below(5);
+        let pool: Vec<String> = match mode {
+            0 => {
+                let stem = if r.chance(1, 2) { format!("{}.{}", r.below(3), r.below(3)) } else { gv::v_safe(&mut r) };
+                let c = gv::revision_cluster(&stem);
+                (0..4).map(|_| r.pick(&c).clone()).collect()
+            }
+            1 => {
+                let v0 = gv::v_safe(&mut r);
+                let v1 = gv::neighbour(&mut r, &v0, false);
+                let from0 = r.chance(1, 2);
+                let v2 = gv::neighbour(&mut r, if from0 { &v0 } else { &v1 }, false);
+                vec![v0, v1, v2]
+            }
+            _ => (0..3).map(|_| version(&mut r)).collect(),
+        };
+        cx.ev.count(match mode {
+            0 => "lists/revision-cluster",
+            1 => "lists/neighbours",
+            _ => "lists/independent",
+        });
         for _ in 0..len {
             let b = *r.pick(bases);
-            let v = if r.chance(2, 3) { r.pick(&pool).clone() } else { version(&mut r) };
+            let v = if mode < 2 || r.chance(2, 3) { r.pick(&pool).clone() } else { version(&mut r) };
             names.push(match r.below(12) {
                 0 => b.to_string(), // no '-'
                 1 => format!("{b}{v}"),
